@@ -97,9 +97,6 @@ def run_cases(ctx, cases):
                 tp = d.get("tparams", "")
                 d.clear()
                 d.update({"exit": "0", "compile": "error", "tparams": tp})
-            for k in list(d):
-                if k.startswith("leaf:") and c["types"].get(k[5:]) == "bool" and d[k].startswith("arg"):
-                    d[k] = "argbool"
     return impl, model
 
 
@@ -127,7 +124,7 @@ def run(ctx, obl):
                 "`new`/`def=`/`new:\"-\"`/`_` markers, generics); each rendered to a package, `shoot new -type=T` run, generated NewT compiled and "
                 "called with sentinel arguments, every leaf read back by reflection. non-trivial = at least one parameter and an embed, mark or default")
     xferleg.run(ctx, res, ctx.n(20000, 200000))
-    res.assumptions = ["reflection reads of unexported fields report the stored value", "bool arguments are only told apart from zero, not from each other"]
+    res.assumptions = ["reflection reads of unexported fields report the stored value"]
     return res
 
 
